@@ -284,6 +284,23 @@ int main(int argc, char **argv) {
         for (int s = 0; s < 3; s++) for (int o = 0; o < 3; o++, c++) if (vf_mine(c)) scale_tree(c, sizes[s], o, (c & 1) != 0);
         static const size_t KL[4] = {65536, 65560, 131073, 4097};
         for (int s = 0; s < 4; s++, c++) if (vf_mine(c)) tree_long_keys(c, 300, KL[s]);
+    } else if (P == 11) {   /* memory-safety build: every container kind at a moderate size plus the huge-element vectors */
+        int n = (int)vf_arg_long("n11", 20011);
+        if (vf_mine(c)) scale_tree(c, n, 2, false); c++;
+        if (vf_mine(c)) scale_tree(c, n, 1, true); c++;
+        if (vf_mine(c)) tree_long_keys(c, 60, 65560); c++;
+        if (vf_mine(c)) scale_hash(c, n, 0, 2, false); c++;
+        if (vf_mine(c)) scale_hash(c, n / 4, 7, 0, true); c++;
+        if (vf_mine(c)) scale_hasharr(c, n, 2); c++;
+        if (vf_mine(c)) scale_listtbl(c, n, 0, 1500); c++;
+        if (vf_mine(c)) scale_listtbl(c, n / 4, QLISTTBL_INSERTTOP | QLISTTBL_LOOKUPFORWARD, 1500); c++;
+        if (vf_mine(c)) scale_list(c, 70001, false); c++;
+        if (vf_mine(c)) scale_queue_stack_grow(c, 70001); c++;
+        if (vf_mine(c)) scale_vector(c, 70001 * 2, 1, QVECTOR_RESIZE_DOUBLE, 0, false); c++;
+        if (vf_mine(c)) scale_vector(c, n, 64, QVECTOR_RESIZE_LINEAR, 16, true); c++;
+        if (vf_mine(c)) scale_vector(c, 40, 3u << 20, QVECTOR_RESIZE_EXACT, 0, false); c++;
+        if (vf_mine(c)) scale_vector(c, 3, 16u << 20, QVECTOR_RESIZE_DOUBLE, 0, false); c++;
+        if (vf_mine(c)) scale_vector(c, 3, 16u << 20, QVECTOR_RESIZE_EXACT, 2, true); c++;
     } else if (!scale_more(big)) { fprintf(stderr, "h_scale: unsupported property %s\n", VF.prop); return 2; }
     return vf_finish() ? 1 : 0;
 }
